@@ -15,6 +15,7 @@ type Scenario struct {
 	NoOracle  bool   // behaviour outside the property's reading: compared with the model only
 	MinParens bool   // surface syntax of the XGo text: minimal parentheses (documented precedence) or full
 	XGoExtra  string // XGo-only declarations (overload sets): no counterpart in the model, calls are resolved
+	NoStruct  bool   // the XGo text uses surface forms the model abstracts (methods, named types, range expressions): no structural tie line
 	Probe     bool   // accept/reject probe: case line `minic`, oracle keys prefixed with Note
 	Note      string
 }
@@ -664,12 +665,167 @@ func (g *G) scOverload() *Scenario {
 	return sc
 }
 
+// rngFn: the documented sequence of a range expression `a:b:c` (c > 0) as a scenario function:
+// rng(a, b, c) = [a, a+c, …) below b.  The XGo text writes `a:b:c`; operands are evaluated once,
+// left to right, when the call is evaluated.
+func (g *G) rngFn() string {
+	name := "rng" + g.sfx
+	for _, f := range g.funcs {
+		if f.Name == name {
+			return name
+		}
+	}
+	g.funcs = append(g.funcs, &Func{Name: name, Params: []Param{{"a", TInt}, {"b", TInt}, {"c", TInt}},
+		Results: []Param{{"", TList(TInt)}},
+		Body: []*Stmt{VarDecl("out", TList(TInt)),
+			If(Bin("lt", Var("a"), Var("b")), []*Stmt{Send("out", false, Var("a")),
+				Send("out", true, Call(name, Bin("add", Var("a"), Var("c")), Var("b"), Var("c")))}, nil),
+			Ret(Var("out"))}})
+	return name
+}
+
+// scRange: for-in statements and comprehensions over RANGE expressions with effectful start / end /
+// step (harness-only surface: M4 has no range node, the model iterates over rng(a, b, c)).
+func (g *G) scRange() *Scenario {
+	var body []*Stmt
+	n := g.declInt(&body)
+	body = append(body, Set1(n, Int(4+g.r.Intn(4)))) // upper bound variable (an identifier: no `_gop_end`)
+	acc := g.v("acc")
+	body = append(body, Def1(acc, Int(0)))
+	g.local(acc, TInt)
+	rng := g.rngFn()
+	operand := func(e *Expr, p int) *Expr { return g.maybeProbe(e, p) }
+	mkRange := func() *Expr {
+		start := operand(Int(g.r.Intn(3)), 60)
+		var end *Expr
+		switch g.r.Intn(3) {
+		case 0:
+			end = Var(n)
+		case 1:
+			end = Int(5 + g.r.Intn(4))
+		default:
+			end = Probe(g.id(), Bin("add", Var(n), Int(1)))
+		}
+		var step *Expr
+		switch g.r.Intn(4) {
+		case 0:
+			step = Int(1 + g.r.Intn(2))
+		case 1:
+			step = Probe(g.id(), Int(1+g.r.Intn(3)))
+		case 2:
+			step = Call(g.incFn(), Int(g.r.Intn(2)))
+		default:
+			step = Bin("add", Probe(g.id(), Int(1)), Int(g.r.Intn(2)))
+		}
+		return RangeE(rng, start, end, step)
+	}
+	for k, cnt := 0, 1+g.r.Intn(2); k < cnt; k++ {
+		i := g.v("i")
+		var cond *Expr
+		if g.r.Bool() {
+			cond = g.maybeProbe(Bin("ne", Bin("rem", Var(i), Int(3)), Int(0)), 40)
+		}
+		body = append(body, ForIn("", i, mkRange(), cond,
+			Set1(acc, Bin("add", Bin("mul", Var(acc), Int(2)), Var(i))), ExprS(Probe(g.id(), Var(i)))))
+	}
+	r := g.v("r")
+	j := g.v("j")
+	body = append(body, Def1(r, ListCompr(TInt, Bin("mul", Var(j), g.maybeProbe(Var(j), 40)), Ph("", j, mkRange(), g.optCondUsing(j, 50)))))
+	g.local(r, TList(TInt))
+	sc := g.finish("forin_range", body)
+	sc.NoStruct = true
+	return sc
+}
+
+// scNamed: NAMED container types (declared only in the XGo text) as targets of `<-`, of literals,
+// for-in and comprehensions; the model sees the underlying []int / map[string]int.
+func (g *G) scNamed() *Scenario {
+	sfx := g.sfx
+	lt, mt := "IntList"+sfx, "StrMap"+sfx
+	extra := "type " + lt + " []int\n\ntype " + mt + " map[string]int\n\n"
+	var body []*Stmt
+	g.declInt(&body)
+	a, b := g.v("a"), g.v("b")
+	vd := VarDecl(a, TList(TInt))
+	vd.XT = lt
+	body = append(body, vd)
+	es := g.intList()
+	if len(es) == 0 {
+		es = []*Expr{Int(3)}
+	}
+	body = append(body, Def1(b, Conv(lt, SliceLit(TInt, es...))))
+	g.local(a, TList(TInt))
+	g.local(b, TList(TInt))
+	body = append(body, Send(a, false, g.maybeProbe(g.intE(1), 60), g.maybeProbe(g.intE(1), 60)))
+	body = append(body, Send(a, true, g.maybeProbe(Var(b), 50)))
+	body = append(body, Send(b, false, g.intE(1)))
+	g.lists = append(g.lists, a, b)
+	acc := g.v("acc")
+	body = append(body, Def1(acc, Int(0)))
+	g.local(acc, TInt)
+	x := g.v("x")
+	body = append(body, ForIn("", x, Var(a), g.optCondUsing(x, 60), Set1(acc, Bin("add", Var(acc), Var(x))), Send(b, false, Var(x))))
+	m := g.v("m")
+	body = append(body, Def1(m, Conv(mt, MapLit(TStr, TInt, [2]*Expr{Str("k"), g.maybeProbe(g.intE(1), 50)}))))
+	g.local(m, TMap(TStr, TInt))
+	k, v := g.v("k"), g.v("v")
+	body = append(body, ForIn(k, v, Var(m), nil, Set1(acc, Bin("add", Var(acc), Bin("mul", Var(v), Len(Var(k)))))))
+	r := g.v("r")
+	y := g.v("y")
+	body = append(body, Def1(r, Conv(lt, ListCompr(TInt, Bin("add", Var(y), Int(1)), Ph("", y, Var(b), g.optCondUsing(y, 50))))))
+	g.local(r, TList(TInt))
+	body = append(body, Send(r, false, Len(Var(a))))
+	sc := g.finish("named_types", body)
+	sc.XGoExtra, sc.NoStruct = extra, true
+	return sc
+}
+
+// C02Fixed: regression inputs (text in corpus/C02/*.xgo); run first in every run.
+func C02Fixed() []*Scenario {
+	var out []*Scenario
+	{ // for-in over a range: start, end, step evaluated once, before the loop (seeded change C02-3)
+		g := newG(vh.NewRand(1), "_rangestep")
+		rng := g.rngFn()
+		body := []*Stmt{Def1("n", Int(7)), Def1("acc", Int(0)),
+			ForIn("", "i", RangeE(rng, Probe(1, Int(1)), Var("n"), Probe(2, Bin("add", Var("acc"), Int(2)))), nil,
+				Set1("acc", Bin("add", Var("acc"), Int(1))), ExprS(Probe(3, Var("i")))),
+			ForIn("", "j", RangeE(rng, Int(0), Int(6), Call(g.incFn(), Int(1))), Bin("ne", Var("j"), Int(2)),
+				ExprS(Probe(4, Var("j"))))}
+		g.local("n", TInt)
+		g.local("acc", TInt)
+		sc := g.finish("forin_range", body)
+		sc.Note, sc.NoStruct, sc.MinParens = "fixed-range-step", true, true
+		out = append(out, sc)
+	}
+	{ // `a <- v` on a NAMED slice type is an append (seeded change C02-4)
+		g := newG(vh.NewRand(1), "_namedsend")
+		vd := VarDecl("a", TList(TInt))
+		vd.XT = "IntList_namedsend"
+		body := []*Stmt{vd, Send("a", false, Probe(1, Int(5)), Int(6)),
+			Def1("b", Conv("IntList_namedsend", SliceLit(TInt, Int(1)))), Send("a", true, Var("b")), Send("b", false, Len(Var("a")))}
+		g.local("a", TList(TInt))
+		g.local("b", TList(TInt))
+		sc := g.finish("named_types", body)
+		sc.Note, sc.NoStruct, sc.MinParens = "fixed-named-send", true, true
+		sc.XGoExtra = "type IntList_namedsend []int\n\n"
+		out = append(out, sc)
+	}
+	for _, sc := range out {
+		sc.Name = "fixed" + sc.Name
+	}
+	return out
+}
+
 // C02Scenario generates the i-th scenario of the C02 mix.
 func C02Scenario(r *vh.Rand, i int) *Scenario {
 	g := newG(r, fmt.Sprintf("_%d", i))
 	switch k := i % 10; {
-	case k == 9 || k == 7:
+	case k == 9 || (k == 7 && i%20 == 7):
 		return g.scOverload()
+	case k == 7:
+		return g.scRange()
+	case k == 3 && i%20 == 13:
+		return g.scNamed()
 	case k == 0:
 		return g.scLiterals()
 	case k == 1:
